@@ -38,7 +38,7 @@ func init() {
 		},
 		Run: run,
 		Floors: func(t string) map[string]int64 {
-			return map[string]int64{"pair.hop": 500, "pair.axis": 300, "pair.ordinary": 300, "history.calls": 20000, "history.repeat_call": 2000, "history.to_registered_wgs84": 1000,
+			return map[string]int64{"pair.hop": 500, "pair.axis": 300, "pair.ordinary": 300, "history.calls": 20000, "history.repeat_call": 2000, "history.to_registered_wgs84": 1000, "history.failing_input": 1000,
 				"structure.failing_k": 10000, "structure.nil_transformer": 1000, "structure.real_transformer": 1000, "structure.*Bounds": 100, "structure.GeometryCollection": 100, "structure.MultiPolygon": 100, "structure.MultiLineString": 100}
 		},
 	})
@@ -217,6 +217,11 @@ func runHistory(c *core.Ctx) {
 			cl.in = inD[i]
 		} else {
 			cl.in = inS[i]
+		}
+		if r.Chance(0.12) {
+			// an input on which the call fails (or returns NaN): later calls must be unaffected
+			cl.in = [][2]float64{{math.NaN(), 1}, {1, math.NaN()}, {1e300, 1e300}, {cl.in[0], 95}, {cl.in[0], -91}, {1e7 * cl.in[0], cl.in[1]}, {math.Inf(1), 0}}[r.Intn(7)]
+			c.Count("history.failing_input")
 		}
 		hist = append(hist, cl)
 		key := fmt.Sprintf("%d/%d", cl.which, i)
